@@ -228,6 +228,20 @@ def diff_terms(a, b):
     return a, b
 
 
+def lowering_obligations(s):
+    """If the analysis of this property went through lerax.utils.filter_cond / filter_scan (lowered to lax.cond / lax.scan), the
+    lowering rule is part of what the verdict rests on: add its obligations under rule "<property>.L"."""
+    used = set()
+    for b in s.builders:
+        used |= getattr(b, "lowered_idioms", set())
+    rule = f"{s.prop}.L"
+    if not used or rule in s.sites or any(r.endswith(".10") and s.prop == "C04" for r in s.sites):
+        return
+    from .rules.lowering import check_lowering
+    check_lowering(s, rule)
+    s.notes.append(f"{rule}: lowering rule added because the analysed code uses {sorted(used)}")
+
+
 _KNOWN_NAMES = None
 
 
@@ -270,6 +284,7 @@ def analyse(prop: str, prog: Program, tier: str = "quick"):
         mod.check(s)
         if tier == "thorough" and hasattr(mod, "check_thorough"):
             mod.check_thorough(s)
+        lowering_obligations(s)
         ov = s.unanalysed_overrides()
         if ov:
             raise AnalysisError("new override(s) of analysed anchors are not covered by the rules: " + "; ".join(ov[:4]))
@@ -302,6 +317,7 @@ def run_property(prop: str, tier: str, checker, explanation: str, assumptions: l
         prog = prog or Program()
         s = Session(prog, prop, tier)
         checker(s)
+        lowering_obligations(s)
         ov = s.unanalysed_overrides()
         if ov:
             raise AnalysisError("new override(s) of analysed anchors are not covered by the rules: " + "; ".join(ov[:4]))
